@@ -161,6 +161,7 @@ func runC02(c *Ctx) {
 		c.Check(hasRet, "R-PANIC", short(FuncName(fn)), "the function can return (is not a panicking stub)", w.Pos(fn.Pos()), "")
 	}
 	c.addOrPanicSites()
+	c02Extras4(c)
 
 	// ---------------- R-BOUNDS on the covered list
 	inScope := map[string]*ssa.Function{}
